@@ -20,7 +20,7 @@ Theorem C05_shape :
     length rows = length A /\ Forall2 (fun r a => length r = length a) rows A.
 Proof.
   intros expr eval q asg jm A rows H. pose proof (update_all_shape expr eval q asg jm A 0 0 rows H) as F.
-  split; [induction F as [|r a rs As Hra F IH]; cbn; [reflexivity | rewrite IH; reflexivity] | exact F].
+  split; [clear H; induction F as [|r a rs As Hra F IH]; cbn; [reflexivity | rewrite IH; reflexivity] | exact F].
 Qed.
 Print Assumptions C05_shape.
 
